@@ -446,6 +446,9 @@ def check_kernel_core(check, an: Analysis, rule: str = 'kernel', skip=()):
         c01._check_optional_dates(check, an, rule)
     if 'loop' not in skip:
         c15.check_loop_never_kept(check, an, rule)
+    if 'waitq' not in skip:
+        # dated activations leave the queue smallest date first, each with its own bucket
+        c01._check_waitqueues(check, an, rule)
 
 
 def check_until_core(check, an: Analysis, rule: str = 'until'):
